@@ -240,7 +240,7 @@ func genHistory(t *rapid.T) *History {
 
 func TestHistories(t *testing.T) {
 	ev.SetChecks(ev.Scale(400, 20000))
-	rapid.Check(t, func(rt *rapid.T) {
+	ev.Check(t, func(rt *rapid.T) {
 		h := genHistory(rt)
 		ev.Watch("history", func() any { return h })
 		msg, q, changed := runHistory(h)
